@@ -6,6 +6,6 @@ Require Import ExtrOcamlBasic.
 Extraction Language OCaml.
 Extraction "model.ml"
   N.add N.mul N.div_eucl N.eqb
-  c_step c_startup c_replay c_kvlog init_state init_state_at reset_keys
+  c_step c_step_cut c_startup c_replay c_kvlog init_state init_state_at reset_keys
   monitor bad_cache_ok census_left
-  V_NO_BOOT V_ACK_EARLY V_LOST V_PARTIAL V_LEFTOVER V_FLUSHED.
+  V_NO_BOOT V_ACK_EARLY V_LOST V_PARTIAL V_LEFTOVER V_FLUSHED V_STALE V_STALE_LIVE V_REBOUND.
